@@ -385,6 +385,29 @@ def r5_budget(chk, prog):
                 if s.k == "assign" and s.place.proj and s.place.fields()[-1:] == ("current_try",):
                     writers.add(root_fn(b.path))
     chk.require(writers == {H + "RetryState::increment"}, "R5", "tough::http", "who-writes-current_try", "current_try is written in %s" % sorted(writers))
+    # the retry state as a whole is never replaced or rebuilt during a fetch (that would renew the budget)
+    whole, ctors, new_callers = set(), set(), set()
+    for b in prog.bodies.values():
+        if not (b.path.startswith(H) or "tough::http::" in b.path):
+            continue
+        for blk in b.blocks:
+            if blk.cleanup:
+                continue
+            for s_ in blk.stmts:
+                if s_.k == "assign" and s_.place.proj and s_.place.fields()[-1:] == ("retry_state",):
+                    whole.add(root_fn(b.path))
+                if s_.k == "assign" and s_.rv.k == "agg" and s_.rv.j.get("adt") == "tough::http::RetryState" \
+                        and "core::clone::Clone" not in b.path:
+                    ctors.add(root_fn(b.path))
+            t = blk.term
+            if t is not None and t.k == "call" and t.is_call_to(H + "RetryState::new"):
+                new_callers.add(root_fn(b.path))
+    chk.require(not whole and ctors <= {H + "RetryState::new"} and
+                new_callers <= {"<tough::http::HttpTransport as tough::transport::Transport>::fetch"}, "R5", "tough::http",
+                "retry-state-never-rebuilt",
+                "the retry state is replaced/rebuilt during a fetch (assigned in %s, constructed in %s, RetryState::new "
+                "called from %s): the number of tries already used would be forgotten"
+                % (sorted(whole), sorted(ctors - {H + "RetryState::new"}), sorted(new_callers)))
     callers = set()
     for b in prog.bodies.values():
         if b.path.startswith(H):
